@@ -7,6 +7,7 @@ From Coq Require Import List NArith Bool.
 From Coq.Strings Require Import Byte.
 Import ListNotations.
 From OV Require Import Model.Value Model.XPathFrag Model.Decl Model.Eval Proofs.PipelineC02.
+From OV Require Model.Json Proofs.Json Proofs.PipelineCanonJson Proofs.PipelineCanonXml.
 From OV Require Import Base.Bytes Base.Tree Model.Pipeline Proofs.Pipeline Proofs.PipelineInst Proofs.PipelineCanon.
 
 Section C15.
@@ -130,6 +131,59 @@ End Checksum.
 Example c15_flat_canon_value :
   j2 (flat_rec ElementNode [] (combine [[x61]; [x62]] [[x31]; [x32]])) = JObj [([x61], JStr [x31]); ([x62], JStr [x32])].
 Proof. vm_compute. reflexivity. Qed.
+
+(* JSON: for every node the JSON stream reader builds (Model/Json.v jnode: document node, property
+   node, array element - what C08's json_tree_built shows the reader to build) for values with
+   pairwise distinct keys whose numbers survive strconv: equal canon => equal value. *)
+Section C15Json.
+  Variable fmtf : N -> bytes.     (* strconv.FormatFloat(v, 'f', -1, 64) *)
+  Variable parsef : bytes -> N.   (* strconv.ParseFloat *)
+  Notation float_rt := (PipelineCanonJson.float_rt fmtf parsef).
+
+  Theorem canon_injective_json : forall v v' ty d base ty' d' base',
+    Json.jwf v = true -> Json.jwf v' = true -> Json.jnums float_rt v -> Json.jnums float_rt v' ->
+    Proofs.Json.base_ok base -> Proofs.Json.base_ok base' ->
+    j2 (Json.jnode fmtf ty d base v) = j2 (Json.jnode fmtf ty' d' base' v') -> v = v'.
+  Proof. exact (PipelineCanonJson.canon_injective_json fmtf parsef). Qed.
+
+  Theorem canon_injective_json_built : forall v v' t t',
+    Json.jwf v = true -> Json.jwf v' = true -> Json.jnums float_rt v -> Json.jnums float_rt v' ->
+    Json.jbuild fmtf (Json.jtokens v) = Some t -> Json.jbuild fmtf (Json.jtokens v') = Some t' ->
+    j2 t = j2 t' -> v = v'.
+  Proof. exact (PipelineCanonJson.canon_injective_json_built fmtf parsef). Qed.
+End C15Json.
+
+(* XML under the F12 guard (PipelineCanonXml.xguard: text-only elements carry no attributes;
+   elements with element children carry no text, have pairwise distinct non-empty child names -
+   or are arrays: >= 2 children of one name and no attributes): two guarded records of the same
+   shape (names, namespaces, nesting) with equal canon are equal - every text and every attribute
+   value is determined by the canon. *)
+Theorem canon_injective_xml : forall e e',
+  PipelineCanonXml.xguard e -> PipelineCanonXml.xguard e' ->
+  PipelineCanonXml.xshape e = PipelineCanonXml.xshape e' ->
+  j2 (PipelineCanonXml.xtree e) = j2 (PipelineCanonXml.xtree e') -> e = e'.
+Proof. exact PipelineCanonXml.canon_injective_xml. Qed.
+
+(* a guarded record with attributes, a nested object and an array *)
+Example c15_xml_guard_nonvacuous :
+  let x := FXml [] [] in
+  let e := PipelineCanonXml.XObj [x6e] x [([x6b], x, [x31])]
+             [PipelineCanonXml.XLeaf [x61] x [x41];
+              PipelineCanonXml.XArr [x6c] x [PipelineCanonXml.XLeaf [x65] x [x31]; PipelineCanonXml.XLeaf [x65] x [x32]]] in
+  PipelineCanonXml.xguard e /\
+  j2 (PipelineCanonXml.xtree e) =
+    JObj [([x61], JStr [x41]); ([x6c], JArr [JStr [x31]; JStr [x32]]);
+          (attributes_key, JObj [([x6b], JStr [x31])])].
+Proof.
+  split; [|vm_compute; reflexivity].
+  simpl. repeat split; auto.
+  - repeat constructor. simpl. tauto.
+  - repeat constructor.
+  - vm_compute. repeat constructor; simpl; intuition discriminate.
+  - vm_compute. intros [H|[H|[]]]; discriminate.
+  - vm_compute. intros [H|[H|[]]]; discriminate.
+  - exists [x65]. repeat constructor.
+Qed.
 
 (* XML: different ingested values, equal canon (F12, both halves) *)
 Theorem xml_checksum_refuted :
